@@ -805,6 +805,21 @@ class Sim18:
         tgt_root = w.ents[tgt_idx].root if tgt_idx is not None else None
         mask = w.mask(w.ents[tgt_idx]) if tgt_idx is not None else None
         operand_idx = {w.ents.index(w.ent(i)) for i in op["a"].values()}
+        # Did bare NumPy, given the same call on bare copies, raise the same
+        # exception after a partial write into the target?  Then the changed
+        # numbers of the target - and the bytes other views of that buffer see
+        # there - are NumPy's own failure non-atomicity, not unyt's.
+        numpy_partial_write = False
+        if raised and tgt_idx is not None and t.cat in ("ufunc_out", "func_out", "ifunc", "iop", "ufunc_at"):
+            tb, ta = before["ents"][tgt_idx], after["ents"][tgt_idx]
+            if not same_numbers(tb["vals"], ta["vals"]) and tb["shape"] == ta["shape"] and tb["units"] == ta["units"]:
+                bexc, bchanged = self.numpy_baseline(op, t, t.fn, before)
+                if bexc == out.get("exc") and bchanged:
+                    numpy_partial_write = True
+                    self.stats["faults"]["numpy_itself_not_failure_atomic"] = \
+                        self.stats["faults"].get("numpy_itself_not_failure_atomic", 0) + 1
+                    # every view of that buffer is excused in B too
+                    self.numpy_tainted.update(j for j, e2 in enumerate(w.ents) if e2.root == tgt_root)
         for i, (b, a) in enumerate(zip(before["ents"], after["ents"])):
             role = "operand" if i in operand_idx else "bystander"
             if i == tgt_idx:
@@ -815,14 +830,8 @@ class Sim18:
                     bad.append("numbers")
                 if b["units"] != a["units"]:
                     bad.append("unit")
-                if bad == ["numbers"] and t.cat in ("ufunc_out", "func_out", "ifunc", "iop", "ufunc_at"):
-                    bexc, bchanged = self.numpy_baseline(op, t, t.fn, before)
-                    if bexc == out.get("exc") and bchanged:
-                        self.stats["faults"]["numpy_itself_not_failure_atomic"] = \
-                            self.stats["faults"].get("numpy_itself_not_failure_atomic", 0) + 1
-                        bad = []
-                        # NumPy's own partial write: every view of that buffer is excused in B too
-                        self.numpy_tainted.update(j for j, e2 in enumerate(w.ents) if e2.root == w.ents[i].root)
+                if bad == ["numbers"] and numpy_partial_write:
+                    bad = []
                 if bad:
                     self.violate("A-failed-inplace-changed-target",
                                  {"call": op, "exception": out.get("exc"), "changed": bad,
@@ -838,6 +847,8 @@ class Sim18:
             if b["bytes"] != a["bytes"]:
                 if shares and not raised:
                     pass  # sibling view of a successfully written target: checked on the root below
+                elif shares and numpy_partial_write:
+                    pass  # sees NumPy's own partial write into the target's buffer
                 else:
                     bad.append("bytes")
             if bad:
